@@ -11,9 +11,14 @@ Clauses (one `Viol` constructor each):
   * `fifo`      an executed command is not the oldest unconsumed input of its user (a complete line in line mode,
                 a non-empty prefix in single-char mode) - order, loss and duplication
   * `idleWait`  backend asked the poller to block although a connected user already had a complete command buffered
+  * `overtaken` a user is served a second time while another user, who had a complete command at the top of an
+                iteration, still waits for his first service (only possible across iterations aborted by an error)
   * `efun`      a command() call on a live object was not executed at once (command() is not turn-limited:
                 `ecmd` events never count for `twice`)
   * `outside`, `crash`, `malformed`  robustness of the trace itself
+An iteration of backend() that an uncaught LPC error leaves by longjmp ends with `abort n` instead of `end n`: `twice`
+is judged inside it, `starved` is not (the loop restarts at once, turns are granted again and the restarted cycle is
+judged in full; its `poll` must not block when somebody still has a complete command).
 A user who connects during a cycle is served from the next cycle on (documented protocol: turns are granted at the
 top of the cycle); a user whose client has closed or who was kicked/dropped is exempt from `starved`.
 -/
@@ -26,6 +31,7 @@ inductive Viol where
   | starved (u n : Nat)
   | fifo (u : Nat) (text : List Char)
   | idleWait (n u : Nat)
+  | overtaken (u v n : Nat)
   | efun (target : Nat) (text : List Char)
   | outside (u : Nat)
   | crash (what : String)
@@ -75,6 +81,8 @@ def structStep (s : SState) (e : Ev) : SState :=
     { s with served := u :: s.served, bad := b2 }
   | .endc n _ _ =>
     { cyc := none, served := [], bad := if s.cyc != some n then .malformed "end without begin" :: s.bad else s.bad }
+  | .abort n =>   -- an iteration left by an uncaught error ends here; the next `begin` opens a new cycle
+    { cyc := none, served := [], bad := if s.cyc != some n then .malformed "abort without begin" :: s.bad else s.bad }
   | .crash w => { s with bad := .crash w :: s.bad }
   | .other l => { s with bad := .malformed l :: s.bad }
   | _ => s
@@ -175,12 +183,73 @@ def judgeStep (s : JState) (e : Ev) : JState :=
   | .endc n _ _ =>
     let starved := s.ids.filter (fun u => (s.us.get u).eligible && live (s.us.get u) && !(s.us.get u).served)
     { s with bad := starved.map (fun u => Viol.starved u n) ++ s.bad, mustNotBlock := none }
+  | .abort _ =>   -- aborted iteration: nobody is owed service by it; the loop restarts at once and the snapshot of the
+                  -- next `begin` (taken before anything else can happen) owes it again
+    { s with mustNotBlock := none }
   | _ => s
 
 def judgeLive (trace : List Ev) : List Viol := (trace.foldl judgeStep {}).bad.reverse
 
+/-! ### clause oracle 5: round robin survives aborted iterations -/
+
+structure OU where
+  connected : Bool := false
+  clientOpen : Bool := true
+  pending : List Char := []      -- sent and not yet consumed (before or after the last `begin`)
+  charMode : Bool := false
+  waiting : Bool := false        -- had a complete command at a `begin` and has not been served since
+  passed : List Nat := []        -- users served while this one has been waiting
+  deriving Repr, BEq, DecidableEq, Inhabited
+
+structure OState where
+  us : AMap OU := []
+  ids : List Nat := []
+  cyc : Nat := 0
+  bad : List Viol := []
+
+def oLive (j : OU) : Bool := j.connected && j.clientOpen
+
+/-- `begin`: a live user with a complete command starts (or goes on) waiting -/
+def obeginU (j : OU) : OU :=
+  if oLive j && complete j.charMode j.pending then
+    (if j.waiting then j else { j with waiting := true, passed := [] })
+  else { j with waiting := false, passed := [] }
+
+/-- `cmd u text` seen by the record of user `v`: `u` itself is served; everybody who waits remembers `u` -/
+def ocmdU (u : Nat) (text : List Char) (v : Nat) (j : OU) : OU :=
+  if v == u then
+    { j with pending := (consume j.charMode j.pending text).getD j.pending, charMode := false, waiting := false, passed := [] }
+  else if j.waiting then { j with passed := u :: j.passed } else j
+
+/-- `end`: a completed iteration owes nothing any more -/
+def oendU (j : OU) : OU := { j with waiting := false, passed := [] }
+
+/-- clause `overtaken`: nobody is served a second time while somebody else, who had a complete command at the top of
+    an iteration, is still waiting for his first service.  In a completed iteration this follows from `starved` and
+    `twice`; the clause speaks about iterations that an uncaught error aborts: the restarted loop must go on with the
+    users that were still waiting (the cursor was stepped past the served ones), not start over with the same ones. -/
+def orderStep (s : OState) (e : Ev) : OState :=
+  match e with
+  | .logon u => { s with us := upd s.us u { connected := true }, ids := u :: s.ids }
+  | .send u d => { s with us := upd s.us u { s.us.get u with pending := (s.us.get u).pending ++ d } }
+  | .close u => { s with us := upd s.us u { s.us.get u with clientOpen := false } }
+  | .kick _ t true => { s with us := upd s.us t { s.us.get t with connected := false } }
+  | .drop _ t true => { s with us := upd s.us t { s.us.get t with connected := false } }
+  | .gc u true => { s with us := upd s.us u { s.us.get u with charMode := true } }
+  | .begin n =>
+    { s with us := s.ids.foldl (fun m u => upd m u (obeginU (s.us.get u))) s.us, cyc := n }
+  | .cmd u text =>
+    let victims := s.ids.filter (fun v => v != u && (s.us.get v).waiting && oLive (s.us.get v) && (s.us.get v).passed.contains u)
+    { s with us := s.ids.foldl (fun m v => upd m v (ocmdU u text v (s.us.get v))) s.us,
+             bad := victims.reverse.map (fun v => Viol.overtaken u v s.cyc) ++ s.bad }
+  | .endc _ _ _ =>   -- a completed iteration owes nothing any more (clause `starved` has judged it)
+    { s with us := s.ids.foldl (fun m u => upd m u (oendU (s.us.get u))) s.us }
+  | _ => s
+
+def judgeOrder (trace : List Ev) : List Viol := (trace.foldl orderStep {}).bad.reverse
+
 /-- violations on a trace (per clause oracle, oldest first inside each); `[]` = the property held -/
 def judgeEv (trace : List Ev) : List Viol :=
-  judgeStruct trace ++ judgeEfun trace ++ judgeFifo trace ++ judgeLive trace
+  judgeStruct trace ++ judgeEfun trace ++ judgeFifo trace ++ judgeLive trace ++ judgeOrder trace
 
 end NV.C12
